@@ -114,6 +114,24 @@ CLAIMS = {
                 'block is one atomic batch. Convergence after a crash at every boundary of every history is a value clause and not decided.',
         'note': 'Not decided: equality of post-crash RPC answers over histories x crash points; update_last_state two-put atomicity (advisory).',
     },
+    'C04': {
+        'technique': 'static analysis: inverse pairing of key families between indexer and rollback, guard flow on the fork search, lock regions, abort-site provenance over compiler MIR',
+        'text': 'Decides that everything filter_block puts is deleted by rollback_to_block (or is content-addressed), everything it deletes is '
+                're-put, and script numbers / filter progress are rewound in the same batch; that a fork sharing no remembered header reaches '
+                'no storage mutator or peer-state update and returns Ok(false); that on the reorg branch the tip write follows the rollback '
+                'inside the matched-blocks lock; that the long-fork abort is reachable only with the flag set after Ok(false) on a '
+                'from-genesis request. Post-fork answer correctness and absence of stalls are value clauses, not decided.',
+        'note': 'Not decided: correctness/completeness of answers for the new chain, stalls. Known findings F15b/F15c (TxHash and BlockNumber records survive a rollback) are listed in known_findings.json.',
+    },
+    'C16': {
+        'technique': 'static analysis: who-may-call, guard flow (incl. must-pass-through under a rejecting outcome), flag switches, dominance over compiler MIR',
+        'text': 'Decides that fetches are marked missing / removed / persisted only by the two proof processes behind request, hash-set and MMR '
+                'checks; that proof requests go only to peers from get_best_proved_peers; that the RPC reports fetched only from a store hit, '
+                'not_found only on the missing flag after re-adding, fetching only with first_sent > 0; that in-flight fetches are marked timed '
+                'out before a peer is dropped and before its request is cleared after a rejected response; and reports the height-based '
+                '(transaction, block) join (known finding F15a).',
+        'note': 'Not decided: status sequences over time, retry scheduling. Known finding F15a is listed in known_findings.json.',
+    },
 }
 
 _PENDING = 'check not built yet in this round (planned in DESIGN.md §5); not claimed until its rules run on the tree'
